@@ -129,7 +129,7 @@ def gen_dprogram(rng, with_order2=False, maxmix=5, plain=("spoil", "wait", "pd",
                 continue
             pk = rng.choice(list(plain))
             if pk == "pd":
-                p["ops"].append({"op": "pd", "p": float(rng.choice([0.5, 1, 2])), "reset": False})
+                p["ops"].append({"op": "pd", "p": float(rng.choice([0.5, 1, 2])), "reset": rng.random() < 0.4})
             else:
                 p["ops"].append({"op": pk})
     return p
